@@ -15,7 +15,20 @@ package encoding
 //@   ensures implies(is(val, bool), result1 == nil && result0 == ite(val.(bool), "true", "false"))
 //@   ensures implies(val == nil, result1 == nil && result0 == "")
 //@   ensures implies(is(val, float64), result1 == nil)
-//@   ensures implies(!is(val, string) && !is(val, bool) && !is(val, float64) && val != nil, result1 != nil)
+//@   ensures implies(!is(val, string) && !is(val, bool) && !is(val, float64) && !is(val, json.Number) && val != nil, result1 != nil)
+//@   ensures implies(is(val, json.Number) && intLit(val.(json.Number)), result1 == nil && result0 == val.(json.Number))
+//@   decreases ite(is(val, json.Number), 1, 0)
+// A number written as an integer literal (optional minus sign, decimal digits) is passed on as written - the only way a
+// 64-bit value survives (C19: "64-bit extremes").
+//@ define digitsFrom(s, from) = len(s) > from && forall(k, from, len(s), s[k] >= '0' && s[k] <= '9')
+//@ define intLit(s) = ite(hasprefix(s, "-"), digitsFrom(s, 1), digitsFrom(s, 0))
+//@ func isIntegerLiteral
+//@   nopanic
+//@   ensures implies(result, intLit(s))
+//@   ensures implies(!result, !intLit(s))
+//@   loop 0 invariant 0 <= i && i <= len(s) && len(s) >= 1 && forall(k, len(old(s)) - len(s), len(old(s)) - len(s) + i, old(s)[k] >= '0' && old(s)[k] <= '9')
+//@   loop 0 invariant s == ite(hasprefix(old(s), "-"), old(s)[1:], old(s)) && len(old(s)) - len(s) == ite(hasprefix(old(s), "-"), 1, 0)
+//@   loop 0 invariant forall(k, 0, len(s), s[k] == old(s)[k + len(old(s)) - len(s)])
 
 // Module-name stack of the RFC 7951 writer (section 4: a member name is qualified with its module name iff
 // the module differs from that of the parent node).
